@@ -1,0 +1,22 @@
+//go:build verif
+
+package osm
+
+import "github.com/golang/geo/s2"
+
+// Verification hooks for property C29 (add-only, compiled with -tags verif only): reach the unexported
+// ring stitching of RelationToPolygon.
+
+// VerifGroupWaysIntoLoops runs indexWaysByEndNodes and groupWaysIntoLoops.
+func VerifGroupWaysIntoLoops(relation *Relation, ways Ways) ([][]WayID, error) {
+	waysByNode, err := indexWaysByEndNodes(relation, nil, ways)
+	if err != nil {
+		return nil, err
+	}
+	return groupWaysIntoLoops(relation, waysByNode, ways)
+}
+
+// VerifWaysToS2Loop runs waysToS2Loop.
+func VerifWaysToS2Loop(ids []WayID, ways Ways, nodes NodeLocations) (*s2.Loop, error) {
+	return waysToS2Loop(ids, ways, nodes)
+}
